@@ -142,11 +142,56 @@ pub fn check(thorough: bool, _seed: u64) -> Check {
             "piece_types": "Probe (identifies piece and argument), Poly1, Poly3, Log<Poly8> (positive ends only)"
         }),
     };
+    // every number of pieces for piece types of every size (thresholds in segments and in bytes are crossed for each type)
+    fn sized<T: Nums + Evaluate>(n: usize, stride: usize, name: &str, cx: &mut Cx) -> Verdict {
+        let ends: Vec<f64> = (0..n).map(|i| 0.5 + i as f64 * 0.25).collect();
+        let pw: Piecewise<T> = Piecewise {
+            segments: ends.iter().enumerate().map(|(i, &e)| Segment { end: e, poly: T::from_nums(&(0..T::N).map(|l| 1.0 + (i % 251) as f64 + 0.125 * l as f64).collect::<Vec<_>>()) }).collect(),
+        };
+        cx.nontrivial();
+        if cx.sampling() {
+            cx.sample(json!({"piece_type": name, "pieces": n, "query_stride": stride}));
+        }
+        let mut ks: Vec<usize> = (0..n).step_by(stride).collect();
+        ks.extend([n.saturating_sub(3), n.saturating_sub(2), n - 1, n / 2, n.saturating_sub(32).min(n - 1), n.saturating_sub(33).min(n - 1)]);
+        for k in ks {
+            let e = ends[k];
+            for x in [exact::pred(e), e, exact::succ(e), e + 0.125] {
+                one(&pw, &ends, x, name, cx)?;
+            }
+        }
+        for x in [f64::NEG_INFINITY, 0.0, ends[n - 1] + 9.0, f64::INFINITY] {
+            one(&pw, &ends, x, name, cx)?;
+        }
+        Ok(())
+    }
+    let sizes = Phase {
+        name: "every-number-of-pieces",
+        units: 6,
+        split: 1,
+        body: Box::new(move |unit, cx| {
+            let top = if thorough { 3300 } else { 1100 };
+            let k = cx.choose(top - 1 + 4);
+            let n = if k < top - 1 { 2 + k } else { [4097usize, 8193, 16385, 65537][k - (top - 1)] };
+            let stride = [29usize, 7][cx.choose(2)];
+            match unit {
+                0 => sized::<Poly0>(n, stride, "Poly0", cx),
+                1 => sized::<Poly2>(n, stride, "Poly2", cx),
+                2 => sized::<Poly3>(n, stride, "Poly3", cx),
+                3 => sized::<Poly5>(n, stride, "Poly5", cx),
+                4 => sized::<Poly8>(n, stride, "Poly8", cx),
+                _ => sized::<IntOfLogPoly4>(n, stride, "IntOfLogPoly4", cx),
+            }
+        }),
+        classes: vec![],
+        bounds: json!({"piece_types": "Poly0, Poly2, Poly3, Poly5, Poly8, IntOfLogPoly4 (Segment sizes 16..80 bytes)", "pieces": if thorough {"every n from 2 to 3300, and 4097, 8193, 16385, 65537"} else {"every n from 2 to 1100, and 4097, 8193, 16385, 65537"},
+            "queries": "at every 29th resp. 7th end, the last three ends, the middle end and the ends 32 and 33 from the last: pred(e), e, succ(e), e+1/8; and -inf, 0, beyond the last end, +inf"}),
+    };
     Check {
         id: "C02",
         rule: "choice tree: shape (unit) x piece type x query; every leaf is one (function, x) input run on the real Piecewise::evaluate; non-trivial = >=2 pieces and x at an end, one ulp from an end, or beyond either extreme; alphabets de-duplicated on bits so distinct leaves are distinct inputs".into(),
         assumptions: vec!["reference index = first i with ends[i] > x else last (plain loop in the harness)".into(), "expected bits come from calling the selected real piece's own evaluate".into()],
-        phases: vec![ph],
+        phases: vec![ph, sizes],
         extra: Default::default(),
         controls: vec![(
             "reference with >= instead of > must disagree with the subject on a breakpoint",
